@@ -19,7 +19,7 @@ func init() {
 			"C14.slicecap — refutation of re-slicings in the evaluation code: where the capacity is evident (fixed array, make) and the bound is linear in one length, no length allowed by the dominating tests makes the bound exceed the capacity; " +
 			"C14.bounds — every slice indexing in the module code a request reaches (the handler's own code, the conversion package, the evaluation code reachable from Execute) is a range-loop index or is dominated by a length test (operand lists can be empty on the wire, query ids are chosen by the client) — for a constant index into a slice parameter of an unexported function that is only ever called directly, the test may dominate every call instead, on the argument or on the list the argument is the element-wise evaluation image of (one result per operand, error known nil); a test on another list (the operands before nested operators were spliced in) does not count; an index that is tested to be non-negative and below another index that is valid there is accepted as well; " +
 			"C14.divzero — every integer division or remainder in that code has a divisor that is a non-zero constant or is known non-zero from a dominating test (every list of a decodable request can be empty); " +
-			"C14.errors — conversion and execution errors (unknown columns included) are returned from the handler as RPC errors, with a nil response; where they arise in a helper of the handler's package, the helper returns them and the handler treats the helper's error the same way. " +
+			"C14.errors — conversion and execution errors (unknown columns included) are returned from the handler as RPC errors, with a nil response; where they arise in a helper of the handler's package, the helper returns them and the handler treats the helper's error the same way; where they arise in a function handed to a helper that calls it for every query (a map helper), that helper only calls it, returns an error wherever the function's error is non-nil, and its error is treated the same way where it is called. " +
 			"NOT decided: stack depth for deeply nested expressions (bounded by protobuf-go's recursion limit and gRPC's message size limit, trusted); that the server keeps answering correctly afterwards beyond the read lock being released by its defer (C04).",
 		assumptions: []string{"protobuf-go allocates oneof wrapper members and repeated message elements when decoding", "grpc-go does not recover handler panics (so the rules are necessary)", "go/ssa, dominance"},
 	})
